@@ -257,15 +257,25 @@ pub fn first_diff_line(a: &str, b: &str) -> String {
 /// of space_operator); a failure that consists of exactly that gets its own signature.
 pub fn c06_signature(x: &str, x2: &str, a: &str, b: &str) -> &'static str {
     let (tx, t2) = (r::scan(x), r::scan(x2));
+    // what the formatter keeps of a gap besides its line breaks: the number of blanks after the
+    // last line break
+    let sb = |g: &str| g.rsplit('\n').next().unwrap_or("").len();
+    let literalish = |t: &Tok| matches!(t.kind, Kind::Text(_) | Kind::Number(_) | Kind::Unknown);
     let only_zero_vs_some = tx.len() == t2.len()
-        && tx.iter().zip(&t2).all(|(p, q)| {
-            let (g1, g2) = (p.lead(x), q.lead(x2));
-            // what the formatter keeps of a gap besides its line breaks: the number of blanks
-            // after the last line break
-            let sb = |g: &str| g.rsplit('\n').next().unwrap_or("").len();
-            g1 == g2 || ((sb(g1) == 0) != (sb(g2) == 0))
+        && (0..tx.len()).all(|i| {
+            let (g1, g2) = (tx[i].lead(x), t2[i].lead(x2));
+            if g1 == g2 {
+                return true;
+            }
+            // a pair the spacing table has no opinion on: a literal on either side, or a bracket
+            // opened after something that is neither an identifier nor a keyword
+            let no_opinion = literalish(&tx[i])
+                || (i > 0 && literalish(&tx[i - 1]))
+                || (matches!(tx[i].kind, Kind::Op(r::Op::LParen | r::Op::LBrack)) && i > 0 && !tx[i - 1].is_word());
+            no_opinion && ((sb(g1) == 0) != (sb(g2) == 0))
         });
-    if only_zero_vs_some && a.replace(' ', "") == b.replace(' ', "") {
+    let _ = (a, b);
+    if only_zero_vs_some {
         "layout-dependent-output:zero-vs-one-space-kept-where-spacing-has-no-opinion"
     } else {
         "layout-dependent-output"
